@@ -52,6 +52,11 @@ func c09Value(t *simrt.Tape) string {
 
 func genC09Line(t *simrt.Tape) string {
 	K := simrt.KGen
+	if t.Bool(K, 12) {
+		// commands that start an external viewer, bare (no redirection): their
+		// behaviour depends on which tools exist and on earlier such commands
+		return []string{"web", "weblist .", "gv", "eog", "evince", "kcachegrind", "web main", "svg", "png"}[t.Choose(K, 9)]
+	}
 	switch t.Choose(K, 10) {
 	case 0, 1, 2:
 		c := c09Commands[t.Choose(K, len(c09Commands))]
